@@ -7,8 +7,12 @@ tie:     random offer / delete / lookup histories through koreo.cache and throug
          event loop never turns between operations, so monitor tasks are created but never run.
          Observables after every op: returned / prepared object (identity as the serial of the preparer
          call that made it), preparer call count, both lookups of every key.
+         The clock koreo.cache reads is the harness's (`Clock`): `elapse` ops let seconds pass between
+         operations (the model: `Op.elapse`, the identity), failing preparers return Retry with delays
+         0 / 1 / 5 / 60 (default) / 600.
          Family B (loop turns): small histories with acyclic subscriptions and `await sleep(0)` turns so
-         that monitors re-prepare in the background; oracle only (C16 owns the model of monitors).
+         that monitors re-prepare in the background — successfully or, for watchers whose preparation
+         needs what they watch to be cached and Ok, failing; oracle only (C16 owns the model of monitors).
 oracle:  the property's clauses against a plain dict kept by the harness, independent of the model
 """
 from __future__ import annotations
@@ -72,6 +76,41 @@ def realistic_meta(r, kind, name, generation):
     return m
 
 
+class Clock:
+    """what koreo.cache and koreo.registry see as the `time` module while C15 runs: the real monotonic
+    clock plus the seconds the histories let pass (`elapse` ops).  Strictly advancing like the real one,
+    shared by both modules, never set back; everything else is the real `time` module."""
+
+    def __init__(self):
+        import time
+        self._time = time
+        self.offset = 0.0
+
+    def monotonic(self):
+        return self._time.monotonic() + self.offset
+
+    def __getattr__(self, name):
+        return getattr(self._time, name)
+
+
+CLOCK = Clock()
+
+
+def install_clock(cache):
+    """True when the cache module's clock is under the harness's control"""
+    import time
+    from koreo import registry
+    ok = False
+    for mod in (cache, registry):
+        if getattr(mod, "time", None) is time or isinstance(getattr(mod, "time", None), Clock):
+            mod.time = CLOCK
+            ok = ok or mod is cache
+        if getattr(mod, "monotonic", None) is time.monotonic:
+            mod.monotonic = CLOCK.monotonic
+            ok = ok or mod is cache
+    return ok
+
+
 class Tok:
     """a prepared resource; some are falsy on purpose (truthiness must not matter to the cache)"""
 
@@ -94,7 +133,7 @@ class World:
         self.desc = {}          # id(obj) -> (serial, descriptor)
         self.bad_args = None
 
-    def preparer(self, kind_idx, offered_spec, subs=()):
+    def preparer(self, kind_idx, offered_spec, subs=(), delay=None):
         declared = [self.registry.Resource(resource_type=KINDS[k], name=n) for k, n in subs]
 
         async def prepare(name, spec):
@@ -104,7 +143,12 @@ class World:
                 self.bad_args = "preparer did not get an equal deep copy of the offered spec"
             d = {"c": "failed" if spec.get("fail") else "ok", "kind": kind_idx, "name": name, "id": spec.get("id")}
             if spec.get("fail"):
-                obj = (self.result.PermFail if serial % 2 else self.result.Retry)(message=f"boom {serial}")
+                if serial % 2:
+                    obj = self.result.PermFail(message=f"boom {serial}")
+                elif delay is None:
+                    obj = self.result.Retry(message=f"boom {serial}")          # the default delay (60 s)
+                else:
+                    obj = self.result.Retry(message=f"boom {serial}", delay=delay)
                 out = obj
             else:
                 obj = Tok(truthy=serial % 3 != 0)
@@ -144,15 +188,18 @@ class World:
 
     async def apply(self, op):
         c = self.cache
-        kind, name = KINDS[op["kind"]], op["name"]
         k = op["op"]
+        if k == "elapse":
+            CLOCK.offset += op["seconds"]        # time passes; nothing else happens
+            return {"k": "unit"}, None
+        kind, name = KINDS[op["kind"]], op["name"]
         if k == "offer":
             meta = metadata(op)
             spec = expand_spec(op["spec"])
             before = self.calls
             try:
                 got = await c.prepare_and_cache(
-                    resource_class=kind, preparer=self.preparer(op["kind"], spec, op.get("subs", ())),
+                    resource_class=kind, preparer=self.preparer(op["kind"], spec, op.get("subs", ()), op.get("delay")),
                     metadata=meta, spec=spec, _system_data=None if op["sys"] is None else {"n": op["sys"]})
             except TypeError:
                 return {"k": "typeError"}, None
@@ -197,6 +244,8 @@ class World:
 def keys_of(ops):
     ks = []
     for op in ops:
+        if op["op"] == "elapse":
+            continue
         k = (op["kind"], op["name"])
         if k not in ks:
             ks.append(k)
@@ -229,8 +278,8 @@ async def run_history(mods, ops, trace):
                 return i, what
             view = w.view(keys)
             trace.append({"out": out, "calls": w.calls, "view": view})
-            key = (op["kind"], op["name"])
             k = op["op"]
+            key = None if k == "elapse" else (op["kind"], op["name"])
             resync = False
             raised_after_preparing = False
             if k == "offer":
@@ -246,7 +295,13 @@ async def run_history(mods, ops, trace):
                     cur = ref.get(key)
                     if cur is not None and cur[0] == op["version"]:
                         if w.calls != calls_before:
-                            return i, "offering the cached resourceVersion prepared again"
+                            what = "offering the cached resourceVersion prepared again"
+                            if isinstance(cur[1], result.Retry):
+                                waited = sum(o["seconds"] for o in ops[:i] if o["op"] == "elapse")
+                                what += (f" (the cached result is a Retry with delay {cur[1].delay!r}; {waited} s were let "
+                                         "pass in this history — a failed preparation stays cached under its "
+                                         "resourceVersion however much time has passed)")
+                            return i, what
                         if out["k"] != "returned":
                             return i, "offering the cached resourceVersion raised SubscriptionCycle"
                         if raw is not cur[1]:
@@ -285,6 +340,9 @@ async def run_history(mods, ops, trace):
                 cur = ref.get(key)
                 if (raw if cur is None else None) is not None or (cur is not None and raw is not cur[1]):
                     return i, "lookup did not return the result of the most recently offered version"
+            elif k == "elapse":
+                if w.calls != calls_before:
+                    return i, "a preparer was called while nothing but time passed"
             elif k == "systemData":
                 cur = ref.get(key)
                 if (cur is None) != (raw is None) or (cur is not None and (raw.resource is not cur[1] or raw.resource_version != cur[0])):
@@ -300,7 +358,9 @@ async def run_history(mods, ops, trace):
                 cur = ref.get(kk)
                 if cur is None:
                     if a is not None or b is not None:
-                        if k == "deleteMeta" and kk == key:
+                        if k == "elapse":
+                            what = "an entry appeared while nothing but time passed"
+                        elif k == "deleteMeta" and kk == key:
                             what = ("deleting by name through delete_resource_from_cache left the entry cached "
                                     f"(metadata resourceVersion {op['version']!r}, cached {b.resource_version!r})")
                         elif k == "delete":
@@ -317,11 +377,15 @@ async def run_history(mods, ops, trace):
                             if raised_after_preparing:
                                 what += (f": the offer of version {op['version']!r} prepared and then raised "
                                          "SubscriptionCycle, the lookups must still return that result")
+                        elif k == "elapse":
+                            what = f"an entry vanished while nothing but time passed ({op['seconds']} s)"
                         else:
                             what = "an entry vanished"
                         return i, what
                     if a is not cur[1] or b.resource is not cur[1] or b.resource_version != cur[0]:
                         what = "lookups do not return the result of the most recently offered version"
+                        if k == "elapse":
+                            what += f" after {op['seconds']} s in which nothing but time passed"
                         if b.resource_version != cur[0]:
                             what += f" (entry is stored under version {b.resource_version!r}, offered resourceVersion was {cur[0]!r})"
                         if raised_after_preparing and kk == key:
@@ -347,6 +411,12 @@ def gen_history(r):
     allkeys = [(i, n) for i in range(2) for n in NAMES]
 
     deepish = r.random() < 0.35   # some histories offer specs nested too deeply to deep-copy
+
+    timed = r.random() < 0.45     # some histories let time pass between operations (`elapse`)
+
+    def delay():
+        """the delay a failing preparer puts in its Retry (None = Retry's default, 60 s)"""
+        return r.choice([None, None, 0, 0, 1, 5, 60, 600]) if timed or r.random() < 0.3 else None
 
     def spec(nid):
         d = {"id": nid, "fail": r.random() < 0.3}
@@ -383,6 +453,15 @@ def gen_history(r):
         return r.randrange(2), r.choice(NAMES)
 
     while len(ops) < length:
+        if timed and r.random() < 0.15:
+            ops.append({"op": "elapse", "seconds": r.choice([1, 1, 2, 5, 59, 60, 61, 61, 300, 601, 3600, 86400])})
+            if r.random() < 0.6 and current:
+                # ... and then the very same name + resourceVersion is offered again (a re-sync)
+                kind, name = r.choice(sorted(current))
+                nid += 1
+                ops.append({"op": "offer", "kind": kind, "name": name, "version": current[(kind, name)],
+                            "spec": spec(nid), "sys": None, "subs": subs(), "meta": meta(kind, name), "delay": delay()})
+            continue
         x = r.random()
         kind, name = key()
         if x < 0.5:
@@ -396,7 +475,7 @@ def gen_history(r):
             nm = "" if r.random() < 0.02 else name
             ops.append({"op": "offer", "kind": kind, "name": nm, "version": v,
                         "spec": spec(nid),
-                        "sys": r.choice([None, None, nid]), "subs": subs(), "meta": meta(kind, nm)})
+                        "sys": r.choice([None, None, nid]), "subs": subs(), "meta": meta(kind, nm), "delay": delay()})
             if v and nm:
                 current[(kind, nm)] = v
         elif x < 0.56:
@@ -424,7 +503,7 @@ def gen_history(r):
                     nid += 1
                     ops.append({"op": "offer", "kind": kind, "name": name, "version": r.choice([old, "1"]),
                                 "spec": spec(nid), "sys": None, "subs": subs(),
-                                "meta": meta(kind, name)})
+                                "meta": meta(kind, name), "delay": delay()})
                     current[(kind, name)] = ops[-1]["version"]
         elif x < 0.86:
             ops.append({"op": "lookup", "kind": kind, "name": name})
@@ -445,6 +524,19 @@ def gen_turn_history(r):
     nid = 0
     ver = {}
     watch = {i: [list(k) for k in ORDER[i + 1:] if r.random() < 0.6] for i in range(len(ORDER))}
+    needy = r.random() < 0.6     # watchers whose preparation depends on the state of what they watch
+    fail_p = 0.3 if needy else 0.15
+    if needy and r.random() < 0.7:
+        # everything is there and usable to begin with (dependencies first), monitors get started
+        for i in reversed(range(len(ORDER))):
+            nid += 1
+            ver[i] = 1
+            sp = {"id": nid, "fail": False, "subs": watch[i]}
+            if watch[i]:
+                sp["needs"] = True
+            ops.append({"op": "offer", "kind": ORDER[i][0], "name": ORDER[i][1], "version": "1", "spec": sp,
+                        "sys": None, "meta": None})
+        ops.append({"op": "turn", "n": 2})
     for _ in range(r.randint(3, 14)):
         x = r.random()
         i = r.randrange(len(ORDER))
@@ -454,12 +546,15 @@ def gen_turn_history(r):
             cur = ver.get(i, 0)
             v = cur if (cur and r.random() < 0.2) else r.choice([cur + 1, cur + 1, 1, 2, 3])
             ver[i] = v
+            sp = {"id": nid, "fail": r.random() < fail_p, "subs": watch[i]}
+            if watch[i] and needy:
+                sp["needs"] = True      # this version can only be prepared while everything it watches is usable
             ops.append({"op": "offer", "kind": kind, "name": name, "version": str(v),
-                        "spec": {"id": nid, "fail": r.random() < 0.15, "subs": watch[i]}, "sys": None,
+                        "spec": sp, "sys": None,
                         "meta": realistic_meta(r, kind, name, r.choice([None, 1, 1, 2])) if r.random() < 0.7 else None})
         elif x < 0.65:
             ops.append({"op": r.choice(["delete", "deleteMeta"]), "kind": kind, "name": name,
-                        "version": r.choice([None, "9"])})
+                        "version": r.choice([None, "9", str(ver[i])] if ver.get(i) else [None, "9"])})
             if ops[-1]["op"] == "deleteMeta" and ops[-1]["version"] is None:
                 ops[-1]["version"] = "9"
             ver.pop(i, None)
@@ -469,7 +564,7 @@ def gen_turn_history(r):
     return ops
 
 
-async def run_turn_history(mods, ops):
+async def run_turn_history(mods, ops, stats=None):
     """family B on the real cache; the oracle is C15's 'latest wins' evaluated after every operation and
     after every single loop turn: the entry of a key is at the most recently OFFERED version, built from
     ITS spec; an offer prepares iff the version differs.  Returns (index, description) or None."""
@@ -477,12 +572,28 @@ async def run_turn_history(mods, ops):
     from koreo import registry
     kutil.reset()
     calls = 0
+    offering = False           # True while a direct offer runs: any other preparer call is a background re-prepare
+    background = {"ok": 0, "failed": 0}
 
     def make_preparer(kind_idx):
         async def prepare(name, spec):
             nonlocal calls
             calls += 1
             declared = [registry.Resource(resource_type=KINDS[k], name=n) for k, n in spec.get("subs", [])]
+            unusable = None
+            if spec.get("needs"):
+                # like a workflow looking up its functions: whatever this resource watches must be cached and Ok
+                for k, n in spec.get("subs", []):
+                    dep = cache.get_resource_from_cache(KINDS[k], n)
+                    if dep is None or not result.is_unwrapped_ok(dep):
+                        unusable = (k, n)
+                        break
+            if not offering:
+                background["failed" if spec.get("fail") or unusable else "ok"] += 1
+            if unusable is not None and not spec.get("fail"):
+                o = (result.PermFail if calls % 2 else result.Retry)(message=f"{unusable} is not usable")
+                o.built_from = (kind_idx, name, spec.get("id"))
+                return o
             if spec.get("fail"):
                 o = result.PermFail(message="boom")
                 o.built_from = (kind_idx, name, spec.get("id"))
@@ -493,7 +604,7 @@ async def run_turn_history(mods, ops):
         return prepare
 
     preparers = [make_preparer(0), make_preparer(1)]
-    latest = {}      # key -> (version, spec id, fail)
+    latest = {}      # key -> (version, spec id, fail, needs)
 
     def audit(i, when):
         for key in ORDER:
@@ -513,7 +624,11 @@ async def run_turn_history(mods, ops):
             if e.spec.get("id") != want[1] or built != (key[0], key[1], want[1]):
                 return i, (f"{when}: the result cached for {key} was built from spec {built and built[2]}, the most "
                            f"recently offered version's spec is {want[1]}")
-            if isinstance(e.resource, result.PermFail) != want[2]:
+            if want[3]:
+                # the outcome of a "needs" spec also depends on what it watches: a failing spec must have failed
+                if want[2] and not isinstance(e.resource, result.PermFail):
+                    return i, f"{when}: outcome class of {key} does not match its spec"
+            elif isinstance(e.resource, result.PermFail) != want[2]:
                 return i, f"{when}: outcome class of {key} does not match its spec"
             if a is not e.resource:
                 return i, f"{when}: the two lookups of {key} disagree"
@@ -533,8 +648,12 @@ async def run_turn_history(mods, ops):
             kind = KINDS[op["kind"]]
             before = calls
             if k == "offer":
-                await cache.prepare_and_cache(
-                    resource_class=kind, preparer=preparers[op["kind"]], metadata=metadata(op), spec=dict(op["spec"]))
+                offering = True
+                try:
+                    await cache.prepare_and_cache(
+                        resource_class=kind, preparer=preparers[op["kind"]], metadata=metadata(op), spec=dict(op["spec"]))
+                finally:
+                    offering = False
                 cur = latest.get(key)
                 if cur is not None and cur[0] == op["version"]:
                     if calls != before:
@@ -542,7 +661,7 @@ async def run_turn_history(mods, ops):
                 else:
                     if calls != before + 1:
                         return i, f"offering a different resourceVersion called the preparer {calls - before} times"
-                    latest[key] = (op["version"], op["spec"]["id"], op["spec"]["fail"])
+                    latest[key] = (op["version"], op["spec"]["id"], op["spec"]["fail"], bool(op["spec"].get("needs")))
             elif k == "delete":
                 await cache.delete_from_cache(kind, op["name"], op["version"])
                 cur = latest.get(key)
@@ -555,6 +674,8 @@ async def run_turn_history(mods, ops):
             if bad:
                 return bad
     finally:
+        if stats is not None:
+            stats.update(background)
         kutil.reset()
         for _ in range(4):           # let cancelled monitors finish before the next history
             await asyncio.sleep(0)
@@ -604,7 +725,7 @@ def wire_ops(ops, got):
     declared subscriptions raise SubscriptionCycle?) is an oracle input taken from the implementation"""
     out = []
     for j, op in enumerate(ops):
-        w = {k: v for k, v in op.items() if k != "subs"}
+        w = {k: v for k, v in op.items() if k not in ("subs", "delay")}
         if op["op"] == "offer":
             w["cycle"] = j < len(got) and got[j]["out"]["k"] == "raisedCycle"
         out.append(w)
@@ -655,9 +776,25 @@ async def explore(ck, mods, drv, cases, what):
         kinds = set()
         versions = {}
         lastgen = {}
+        elapsed = 0
+        retry_at = {}       # key -> (seconds elapsed when its cached Retry was prepared, its delay)
         for j, (op, g) in enumerate(zip(ops, got)):
             ck.count(f"op:{op['op']}")
             o = g["out"]
+            if op["op"] == "elapse":
+                elapsed += op["seconds"]
+                continue
+            if op["op"] == "offer" and o["k"] in ("returned", "raisedCycle"):
+                kk = (op["kind"], op["name"])
+                if o.get("prepared", True):
+                    retry_at.pop(kk, None)
+                    if o["resource"]["c"] == "failed" and o["serial"] % 2 == 0 and not op["spec"].get("deep"):
+                        retry_at[kk] = (elapsed, 60 if op.get("delay") is None else op["delay"])
+                elif kk in retry_at and elapsed - retry_at[kk][0] >= retry_at[kk][1]:
+                    ck.count("offer:hit-on-Retry-older-than-its-delay")
+                    kinds.add("retry-outlived-delay")
+            elif op["op"] in ("delete", "deleteMeta"):
+                retry_at.pop((op["kind"], op["name"]), None)
             if op["op"] == "offer" and (op.get("meta") or {}).get("generation"):
                 prev = lastgen.get((op["kind"], op["name"]))
                 if prev is not None and prev[0] == op["meta"]["generation"] and prev[1] != op["version"] \
@@ -710,7 +847,8 @@ async def explore_turns(ck, mods, cases):
     for ops in cases:
         ck.evaluated()
         ck.count("familyB:histories")
-        bad = await run_turn_history(mods, ops)
+        stats = {}
+        bad = await run_turn_history(mods, ops, stats)
         if bad is not None:
             i, msg = bad
             if len(ck.violations) < SHRINK_FIRST:
@@ -729,6 +867,10 @@ async def explore_turns(ck, mods, cases):
         watchers = [op for op in offers if op["spec"]["subs"]]
         ck.count("familyB:turns", turns)
         ck.count("familyB:offers", len(offers))
+        ck.count("familyB:background-re-prepare-ok", stats.get("ok", 0))
+        ck.count("familyB:background-re-prepare-failed", stats.get("failed", 0))
+        if stats.get("failed"):
+            ck.nontriv("B" + json.dumps(ops, sort_keys=True))
         keys = {(op["kind"], op["name"]) for op in watchers}
         if len({(op["kind"], op["name"], op["version"]) for op in watchers}) > len(keys):
             ck.count("familyB:watcher-re-versioned")
@@ -762,6 +904,8 @@ def run(tier: str) -> int:
         ck.leanchecker()
     drv = LeanDriver("C15")
     mods = (cache, result, kutil)
+    if not install_clock(cache):
+        ck.notes.append("koreo.cache does not read its clock through `time.monotonic`: `elapse` ops could not move it")
 
     async def main():
         go = True
@@ -794,12 +938,17 @@ def run(tier: str) -> int:
              "(30 %), preparers declaring subscriptions incl. cycle-closing ones (offer raises SubscriptionCycle "
              "after caching), full Kubernetes metadata (generation moving independently of resourceVersion, uid, "
              "labels, annotations, managedFields, creationTimestamp), deletes by name / current version / stale "
-             "version / empty version / metadata with any version, delete-then-re-offer of the old version; "
-             "family B: 3-14 ops with acyclic subscriptions and event-loop turns (background re-preparation), "
-             "oracle only. Non-trivial = at least three different kinds of event (prepared-ok, prepared-failed, "
+             "version / empty version / metadata with any version, delete-then-re-offer of the old version; in 45 % "
+             "of the histories time passes between operations (elapse 1 s .. 1 day on the clock the cache reads, "
+             "often followed by a re-offer of a cached name+version) and failing preparers return Retry with delay "
+             "0/1/5/60/600 s; "
+             "family B: 3-18 ops with acyclic subscriptions and event-loop turns (background re-preparation, which "
+             "fails when a watcher 'needs' a dependency that was deleted or offered in a failing version), deletes "
+             "by name / stale / current version, oracle only. Non-trivial = at least three different kinds of event (prepared-ok, prepared-failed, "
              "cached-ok, cached-failed, raisedCycle, typeError, delete-removed, delete-stale-kept, delete-absent, "
              "deleteMeta-*, new version under the same generation, a version offered again after another one) "
-             "in one family-A history, or a watcher offered at two versions in a family-B history; distinct by op list",
+             "in one family-A history (also: a hit on a Retry older than its delay), or a watcher offered at two "
+             "versions / a failed background re-prepare in a family-B history; distinct by op list",
     )
 
 
@@ -807,6 +956,7 @@ def replay(path: str) -> int:
     import koreo_util as kutil
     from koreo import cache, result
 
+    install_clock(cache)
     data = json.load(open(path))
     cases = [v["case"] for v in data.get("violations", [])] if "violations" in data else [data]
     rc = 0
